@@ -120,6 +120,9 @@ type Core struct {
 	ZeroErr bool
 	// TypedNilErr: a failing Close returns a typed nil pointer as its error
 	TypedNilErr bool
+	// CauseErr: injected faults are reported with an application error type that follows the Cause()
+	// convention and has no underlying cause (its Cause() returns nil)
+	CauseErr bool
 	// CloseFn, when set, runs between close-begin and close-end (gates, delays).
 	CloseFn func(who Node)
 }
@@ -133,6 +136,9 @@ func (k *Core) ev(kind string, who Node) error {
 	if k.Fails[kind] {
 		if k.ZeroErr {
 			return zeroErr{}
+		}
+		if k.CauseErr {
+			return &OpErr{Op: kind + " of " + name}
 		}
 		return errors.New("injected fault: " + kind + " of " + name)
 	}
@@ -165,6 +171,16 @@ func (k *Core) closeEv(who Node) error {
 type fieldErr struct{ msg string }
 
 func (e *fieldErr) Error() string { return e.msg }
+
+// OpErr is an application error in the style `type StartupError struct{ Op string; Err error }` with a
+// Cause() method; the injected ones have no underlying cause.
+type OpErr struct {
+	Op  string
+	Err error
+}
+
+func (e *OpErr) Error() string { return "injected fault (application error type): " + e.Op }
+func (e *OpErr) Cause() error  { return e.Err }
 
 type zeroErr struct{}
 
